@@ -11,6 +11,9 @@ type Seed struct {
 var ExtraConfig = []Seed{
 	{"heredoc", "a = <<EOT\nhello ${b}\nEOT\n"},
 	{"flush-heredoc", "a = <<-EOT\n  x\n    y\n  EOT\n"},
+	{"heredoc-interp-first", "a = <<EOT\n${b} world\nEOT\n"},
+	{"heredoc-directive-first", "a = <<-EOT\n  %{ if b }x%{ endif }\n  ${~ c } y\n  EOT\n"},
+	{"align-chain", "blk {\n  a = 1\n      bungle = 2 # c1\n  c = 3 # c2\n}\n"},
 	{"for-tuple", "a = [for k, v in m : v if k != \"x\"]\n"},
 	{"for-object", "a = {for k, v in m : k => v...}\n"},
 	{"cond", "a = b ? c : d\n"},
